@@ -64,6 +64,8 @@ package local
 // onlyAt(r, l, i, n): no other position below n of the locked list refers to the same watched channel as position i.
 //@ pred onlyAt(r *registry, l []channel.SubAlloc, i int, n int) = forall k int :: 0 <= k && k < n && k != i ==> watched(r, l[k].ID) != watched(r, l[i].ID)
 
+//@ pred notSubOf(r *registry, c *ch, l []channel.SubAlloc, n int) = forall k int :: 0 <= k && k < n ==> watched(r, l[k].ID) != c
+
 // registerDispute registers exactly that tree, once, and records the registered versions.
 //@ func registerDispute
 //@   requires r != nil && registerer != nil && parentCh != nil && parentCh.params != nil && parentCh.archivedSubChStates != nil
@@ -73,8 +75,13 @@ package local
 //@   ensures result == nil ==> forall i int :: 0 <= i && i < len(latest(parentCh.txRetriever).State.Locked) && watched(r, latest(parentCh.txRetriever).State.Locked[i].ID) != nil &&
 //@           onlyAt(r, latest(parentCh.txRetriever).State.Locked, i, len(latest(parentCh.txRetriever).State.Locked)) ==>
 //@           watched(r, latest(parentCh.txRetriever).State.Locked[i].ID).registeredVersion == latest(watched(r, latest(parentCh.txRetriever).State.Locked[i].ID).txRetriever).State.Version
+// ... and the root itself remembers the version of its transaction that was registered, whether or not it has sub-channels
+// (notSubOf: the root is not at the same time one of its own watched sub-channels)
+//@   ensures result == nil && notSubOf(r, parentCh, latest(parentCh.txRetriever).State.Locked, len(latest(parentCh.txRetriever).State.Locked)) ==>
+//@           parentCh.registeredVersion == latest(parentCh.txRetriever).State.Version
 //@   loop 1
 //@     invariant len(subStates) == len(parentTx.State.Locked) && parentTx.State == latest(parentCh.txRetriever).State && forall k int :: 0 <= k && k < len(subStates) ==> subStateOK(r, parentCh, parentTx.State.Locked[k].ID, subStates[k])
+//@     invariant notSubOf(r, parentCh, parentTx.State.Locked, $i) ==> parentCh.registeredVersion == parentTx.State.Version
 //@     invariant forall k int :: 0 <= k && k < $i && watched(r, parentTx.State.Locked[k].ID) != nil && onlyAt(r, parentTx.State.Locked, k, $i) ==>
 //@       watched(r, parentTx.State.Locked[k].ID).registeredVersion == latest(watched(r, parentTx.State.Locked[k].ID).txRetriever).State.Version
 
